@@ -179,6 +179,8 @@ def _compute_individual(args, signatures_factory):
             # for each input file, construct output filename
             sigfile = os.path.basename(filename) + ".sig"
             if args.output_dir:
+                # create the output directory if needed (the signature file is written on close)
+                os.makedirs(args.output_dir, exist_ok=True)
                 sigfile = os.path.join(args.output_dir, sigfile)
 
             # does it already exist? skip if so.
